@@ -1,8 +1,8 @@
 ------------------------------- MODULE MC_Conc -------------------------------
 EXTENDS Dos
-MCKeys == {"k1", "k2", "k3"}
-MCInitial == {"k1"}
-MCPacked == <<"k3">>
+MCKeys == {"k1", "k2", "k3", "k4"}
+MCInitial == {"k1", "k3"}
+MCPacked == <<"k4">>
 MCAdds == <<"k2", "k1">>          \* a new content, then a duplicate of an existing one
-MCWants == {"k1", "k2", "k3"}
+MCWants == {"k1", "k2", "k4"}
 ==============================================================================
